@@ -1,6 +1,7 @@
 import Dcg.Driver.Proto
 import Dcg.Driver.Constraints
 import Dcg.Sem.Pyd
+import Dcg.Model.Names
 /-
 Driver for the semantic model (C03/C04/C14): `validJ`, `tr` (IR dump), `acceptsTy`.
 Schemas, JSON values and the regular-expression oracle travel as S-expressions (see vlib/semlean.py).
@@ -213,6 +214,22 @@ def handlers : List (String × Handler) := [
   ("sem.tr", fun
     | [st, o, c, s] => match style? st, opts? o, ctx? c, schema? s with
       | some st, some o, some c, some s => "ok " ++ showTy (tr st o c s)
+      | _, _, _, _ => "err args"
+    | _ => "err args"),
+  -- sem.pfields <style> <routing> <snake_case_field 0|1> <allOf schema>
+  --   own fields of the class of an allOf, WITH their Python names (field-name resolver of Dcg.Model.Names),
+  --   after the allOf-level `required` was applied: ok (<python name> <original name> <required>)…
+  ("sem.pfields", fun
+    | [st, o, sn, s] => match style? st, opts? o, sn.bool?, schema? s with
+      | some st, some o, some sn, some (.allOf _ props req xreq) =>
+        match Dcg.Model.Names.foldProps Dcg.Model.Names.pyEnv .pydantic { snakeCase := sn }
+            (props.map (fun p => (p.1, false))) [] with
+        | .ok (fs, _) =>
+          let table := (props.map (·.1)).zip (fs.map (·.1.1))
+          let nm := fun (n : List Char) => (table.lookup n).getD n
+          "ok" ++ String.join ((markRequired xreq (parseFields st o nm req props)).map (fun f =>
+            " (" ++ encodeStr f.name ++ " " ++ encodeStr f.key ++ " " ++ (if f.required then "1" else "0") ++ ")"))
+        | _ => "err resolver"
       | _, _, _, _ => "err args"
     | _ => "err args"),
   -- sem.trdef <style> <routing> <defs> <body> <name>   (the class of a definition after the discriminator pass)
